@@ -8,7 +8,7 @@ ERRNOS = {
     "openat": ["EACCES", "EMFILE", "EIO"], "newfstatat": ["EACCES", "EIO"], "statx": ["EACCES", "EIO"], "getdents64": ["EIO", "EACCES"],
     "readlink": ["EIO", "EACCES"], "copy_file_range": ["EIO", "ENOSPC"], "ftruncate": ["ENOSPC", "EIO"], "mkdir": ["ENOSPC", "EACCES", "EROFS"],
     "symlink": ["EEXIST", "ENOSPC", "EACCES"], "mknodat": ["EPERM", "ENOSPC"], "rename": ["EACCES", "EROFS"], "unlink": ["EACCES", "EROFS"],
-    "fchmod": ["EPERM", "EIO"], "utimensat": ["EPERM", "EIO"], "fsync": ["EIO", "ENOSPC"], "lseek": ["EIO"], "ioctl": ["EIO", "EPERM", "ENOTTY"],
+    "fchmod": ["EPERM", "EIO"], "utimensat": ["EPERM", "EIO"], "fsync": ["EIO", "ENOSPC"], "lseek": ["EIO", "EINVAL"], "ioctl": ["EIO", "EPERM", "ENOTTY"],
     "fchown": ["EPERM"], "fsetxattr": ["ENOSPC"], "flistxattr": ["EIO"], "fgetxattr": ["EIO"],
 }
 TOLERATED = {"fchown", "fsetxattr", "flistxattr", "fgetxattr"}       # documented warnings (C04 statement)
@@ -77,7 +77,7 @@ def run(ctx):
                 n = counts.get(sysc, 0)
                 cap = n if not quick else min(n, 12)
                 for when in range(1, cap + 1):
-                    for err in (errs if (not quick or sysc in ("openat", "getdents64", "ioctl")) else [errs[when % len(errs)]]):
+                    for err in (errs if (not quick or sysc in ("openat", "getdents64", "ioctl", "lseek")) else [errs[when % len(errs)]]):
                         jobs.append((drv, w, sysc, err, when, None))
             # a fault that follows a short count inside one block / one copy loop (the hook shortens, strace fails the next call)
             for when in range(1, (8 if quick else 30) + 1):
